@@ -57,7 +57,11 @@ def shapes():
                    "prods": [["L", "A", None, [["v", G.IR01]]], ["K", "A", None, [["v", G.IR22]]],
                              ["P", "A", None, [["u", ["union", G.ref("L"), G.ref("K")]], ["a", G.ref("A")]]]],
                    "start": "P", "considered": ["A", "L", "K"]}
-    return [two, three, nested, nested_start, concrete_start, nested_unlisted, union_field, union_start]
+    # no recursion at all and an abstract layer without productions (the depth heuristic of the progressively terminal
+    # chooser goes negative for every alternative)
+    flat_empty = {"name": "WE", "abstract": [["A", None, "ABC"], ["B", "A", "decorator"]],
+                  "prods": [["L", "A", None, [["v", G.IR01]]], ["K", "A", None, [["v", G.IR22]]], ["M", "A", None, [["w", "bool"]]]], "start": "A"}
+    return [two, three, nested, nested_start, concrete_start, nested_unlisted, union_field, union_start, flat_empty]
 
 
 def assignments(spec, tier):
@@ -75,7 +79,7 @@ def assignments(spec, tier):
             continue  # weights are only taken into account when a *supplied* class carries one
         for a in view.abstract:
             ws = [1 if asg.get(c) is None else asg[c] for c in view.productions(a)]
-            if not any(w > 0 for w in ws):
+            if ws and not any(w > 0 for w in ws):  # (an abstract layer without productions has nothing to normalise)
                 ok = False
         if ok:
             yield asg
@@ -85,14 +89,14 @@ def units(tier, seed):
     us = []
     for spec in shapes():
         asgs = list(assignments(spec, tier))
-        if tier == "quick" and spec["name"] == "WNu":
+        if tier == "quick" and spec["name"] in ("WNu", "WE"):
             asgs = asgs[::3]  # same class structure as WN: a third of the assignments in the quick tier
         for asg in asgs:
             us.append({"kind": "weights", "spec": spec, "weights": asg, "extractions": 3})
             if any(asg.get(a[0]) is not None and (a[2] == "decorator" or a[1] is not None) for a in spec["abstract"]):
                 # the two decorators stacked the other way round: @abstract above @weight(w)
                 us.append({"kind": "weights", "spec": spec, "weights": asg, "extractions": 2, "order": "abstract-last"})
-    for spec in shapes()[:3]:
+    for spec in shapes()[:3] + [s for s in shapes() if s["name"] in ("WCs", "WUs")]:
         for zero in [p[0] for p in spec["prods"]]:
             us.append({"kind": "reweight", "spec": spec, "zero": zero})
     for spec in shapes():
@@ -153,6 +157,8 @@ def run_weights(unit) -> UnitResult:
             ws = {tname(c): v for c, v in g.get_weights().items()}
             for a in view.abstract:
                 prods = view.productions(a)
+                if not prods:
+                    continue  # an abstract layer without productions: nothing to normalise
                 got = [ws[p] for p in prods]
                 decl = [1 if asg.get(p) is None else asg[p] for p in prods]
                 tot = sum(decl)
@@ -284,10 +290,34 @@ def run_reweight(unit) -> UnitResult:
             TreeBasedRepresentation(g, dec).create_genotype(src0)
         except BaseException:  # noqa
             pass
+        # the stack representation maps genomes over this grammar object before the change as well (with the genomes its own
+        # machine completes) ...
+        import geneticengine.representations.stackgggp as S
+
+        for genome, _ in P.stack_guided_genomes(g):
+            try:
+                S.StackBasedGGGPRepresentation(g, gene_length=len(genome)).genotype_to_phenotype(S.Genotype(list(genome)))
+            except BaseException:  # noqa
+                pass
         w = g.get_weights()
         extra = {c: 0.0 for c in w}
         extra[b.classes[zero]] = -w[b.classes[zero]]
         g.update_weights(1, extra)
+        # ... and afterwards: no program it builds contains the production that now has weight zero
+        zero_cls = b.classes[zero]
+        if g.get_weights().get(zero_cls, 1) == 0:
+            for genome, _ in P.stack_guided_genomes(g):
+                try:
+                    prog = S.StackBasedGGGPRepresentation(g, gene_length=len(genome)).genotype_to_phenotype(S.Genotype(list(genome)))
+                except BaseException:  # noqa
+                    continue
+                r.executions += 1
+                r.count("stack_programs_after_reweighting")
+                if any(type(n) is zero_cls for n in _nodes(prog)):
+                    r.add_violation(Violation(PROP, "stack.genotype_to_phenotype", "zero-weight-chosen", {"after_reweighting": True}, {"unit": unit, "genome": list(genome)},
+                                              f"{spec['name']}: after update_weights drove {zero} to 0, the stack mapping over the same grammar object still builds "
+                                              f"{R.show(R.term(prog))[:100]}"))
+                    break
 
         def run(src):
             # the decider lives across the weight change; its random source is re-pointed at the explorer's
